@@ -166,12 +166,17 @@ def expand(c, opslists, family, quick):
         elif c == "slist":
             res.append({"c": c, "create": [i % 11], "ops": ops})
         elif c == "htable":
-            if family == "all-calls" or not quick:
-                kinds = HT_KINDS if family == "all-calls" else ["gen", "strvp", "dict"]
+            # [kind, key ids, prefill]: every script on an empty table; the string-keyed / generic kinds also on a
+            # table pre-filled with 26 entries (64 buckets: the spellings of a case-insensitive key only part
+            # ways in the hash from bit 5 on, i.e. from 64 buckets on)
+            if family == "all-calls":
+                combos = [(k, 0) for k in HT_KINDS] + ([("strvp", 26), ("dict", 26), ("gen", 26)] if quick else [("strvp", 26)])
+            elif quick:
+                combos = [("gen", 0), ("strvp", 0)]
             else:
-                kinds = ["gen", "strvp"]
-            for k in kinds:
-                res.append({"c": c, "create": [k, 3], "ops": ops})
+                combos = [("gen", 26), ("strvp", 26), ("dict", 26)]
+            for k, pre in combos:
+                res.append({"c": c, "create": [k, 3, pre], "ops": ops})
         elif c == "llist":
             res.append({"c": c, "create": [], "ops": ops})
         elif c == "buf":
@@ -182,7 +187,10 @@ def expand(c, opslists, family, quick):
 def write_scripts(path, scripts):
     with open(path, "w") as f:
         for h, s in enumerate(scripts):
-            o = {"h": h, "c": s["c"], "create": s["create"], "ops": s["ops"]}
+            cr = list(s["create"])
+            if s["c"] == "htable" and len(cr) == 2:
+                cr.append(0)        # [kind, key ids, prefill]
+            o = {"h": h, "c": s["c"], "create": cr, "ops": s["ops"]}
             f.write(json.dumps(o, separators=(",", ":")) + "\n")
 
 
@@ -640,11 +648,6 @@ def random_runs(ctx, c, quick):
                 "llist": (3000, 32, 200), "buf": (3000, 32, 250)}[c]
     nops, nkeys, nhist = base
     runs = [(0, nops, nkeys, nhist, "")]
-    # while a known defect makes the histories that touch it useless afterwards, also run without those calls
-    if c == "llist":
-        runs.append((1, nops, nkeys, nhist, "insert_before,insert_after"))
-    if c == "buf":
-        runs.append((1, nops, nkeys, nhist, "replace"))
     if c == "array":
         runs.append((1, nops // 4, 4, nhist * 2, ""))
     if c == "htable" and not quick:
@@ -725,14 +728,12 @@ def corrupted_trace_selftest(ctx, exe):
 
 
 def load_kf_scripts(ctx):
+    """the histories of the findings of this property (listed as known or since fixed) are always executed."""
+    import glob
     res = []
-    for k in ctx.kf.get("known", []):
-        if k.get("property") != ctx.pid or not k.get("replay"):
-            continue
-        p = os.path.join(vlib.ROOT, k["replay"])
-        if os.path.exists(p):
-            j = json.load(open(p))
-            res.append({"c": j["c"], "create": j.get("create", []), "ops": j["ops"]})
+    for p in sorted(glob.glob(os.path.join(vlib.ROOT, "replays", "kf-c19-*.json"))):
+        j = json.load(open(p))
+        res.append({"c": j["c"], "create": j.get("create", []), "ops": j["ops"]})
     return res
 
 
